@@ -94,6 +94,21 @@ def run_witness(spec):
         return None, 'witness timed out'
 
 
+class _Baseline:
+    """obligation names discharged on the pinned tree.  `name in baseline`: the obligation itself, or its
+    family (the same check of the same function: the name up to its last component) passed there."""
+
+    def __init__(self, names=()):
+        self.names = set(names)
+        self.families = {n.rsplit('/', 1)[0] for n in self.names}
+
+    def __contains__(self, name):
+        return name in self.names or name.rsplit('/', 1)[0] in self.families
+
+    def __bool__(self):
+        return bool(self.names)
+
+
 def _repo_head():
     import subprocess
     try:
@@ -125,7 +140,7 @@ def check_property(prop, tier, seed, spec):
     # attempt only: they are expected not to be discharged, and the full ladder (z3, cvc5, z3 again)
     # on a satisfiable string query costs minutes
     cheap = [p_ for f_ in load_known() if f_.get('status') == 'open' for p_ in f_['obligations']]
-    opts = {'timeout_ms': 20000 if tier == 'quick' else 120000, 'cvc5': True, 'cheap': cheap,
+    opts = {'timeout_ms': 40000 if tier == 'quick' else 120000, 'cvc5': True, 'cheap': cheap,
             'fn_budget_s': 900 if tier == 'quick' else 3000,
             'dump_dir': os.path.join(OUT, 'replays', prop, 'smt2')}
     keys = [k for k in spec['functions'] if k in reg.contracts and not reg.contracts[k].trusted]
@@ -209,10 +224,11 @@ def check_property(prop, tier, seed, spec):
     # "an obligation that passed on the unchanged tree and now fails, with the solver's reason attached";
     # it is reported `no-failing-input-found`.  Any other `unknown` is UNDECIDED (exit 2).
     base_path = os.path.join(ROOT, 'baseline', f'{prop}.json')
-    baseline = set()
+    baseline = _Baseline()
     if os.path.exists(base_path) and not os.environ.get('VERIF_WRITE_BASELINE'):
         with open(base_path) as f_:
-            baseline = set(json.load(f_)['discharged'])
+            bj = json.load(f_)
+        baseline = _Baseline(set(bj['discharged']) | set(bj.get('cone', ())))
     confirmed_names = set()
     if any(o['status'] == 'unknown' and o.get('inputs') and id(o) not in covered for o in failed):
         # candidate counter-models of `unknown` obligations: a violation if the real code confirms one
@@ -237,9 +253,15 @@ def check_property(prop, tier, seed, spec):
     if os.environ.get('VERIF_WRITE_BASELINE') and not os.environ.get('VERIF_REPO'):
         bad_names = {o['name'] for o in failed}
         names = sorted({o['name'] for o in obligations if o['name'] not in bad_names})
+        # every obligation name of the cone (also those another property selects): an obligation that
+        # appears only when two values stop being syntactically identical has no name of its own on the
+        # pinned tree, but its family (same function / same check) has
+        cone_names = sorted({o['name'] for r in results for o in r['obligations'] if o['status'] == 'discharged'}
+                            - set(names))
         os.makedirs(os.path.join(ROOT, 'baseline'), exist_ok=True)
         with open(base_path, 'w') as f_:
-            json.dump({'property': prop, 'repo_head': _repo_head(), 'tier': tier, 'discharged': names}, f_, indent=0)
+            json.dump({'property': prop, 'repo_head': _repo_head(), 'tier': tier, 'discharged': names,
+                       'cone': cone_names}, f_, indent=0)
     # ---- replay files
     vio_lines = []
     if violations:
